@@ -194,3 +194,211 @@ if __name__ == "__main__":
     lean, inf = translate_dt_function(sys.argv[1], sys.argv[2], sys.argv[2])
     print(lean)
     print(inf)
+
+
+# ---------------------------------------------------------------------------------------------
+# second translator: the two array post-processing functions of C18
+#   control/timeresp.py:_process_time_response, control/lti.py:_process_frequency_response
+# straight-line code with if/elif/else, re-assignment of parameters, a few NumPy calls.
+# Target: Lean `do` notation in `Except Err` over `NDArr α` (Model/Shape.lean).
+# ---------------------------------------------------------------------------------------------
+
+class _ArrayFn:
+    """translation context: which Python names are what"""
+
+    def __init__(self, arrays, bools, sq, nats, cfg_keys, attr_calls, special_exprs):
+        self.arrays, self.bools, self.sq, self.nats = arrays, bools, sq, nats
+        self.cfg_keys = cfg_keys            # allowed config.defaults keys -> Lean name
+        self.attr_calls = attr_calls        # e.g. ('sys', 'issiso') -> 'issiso'
+        self.special = special_exprs        # ast.dump of an expression -> Lean Nat expression
+        self.used_cfg = []
+
+    # -- expressions ------------------------------------------------------------------------
+    def arr(self, node):
+        """array-valued expression -> (lean, monadic?)"""
+        if isinstance(node, ast.Name) and node.id in self.arrays:
+            return node.id, False
+        if isinstance(node, ast.Subscript) and isinstance(node.slice, ast.Constant) \
+                and type(node.slice.value) is int and node.slice.value >= 0:
+            inner, mon = self.arr(node.value)
+            i = node.slice.value
+            if mon:
+                return "(%s).bind (NDArr.index · %d)" % (inner, i), True
+            return "NDArr.index %s %d" % (inner, i), True
+        if isinstance(node, ast.Call) and isinstance(node.func, ast.Attribute) \
+                and isinstance(node.func.value, ast.Name) and node.func.value.id == "np":
+            f = node.func.attr
+            if f == "squeeze" and len(node.args) == 1:
+                v, mon = self.arr(node.args[0])
+                if mon:
+                    raise Unsupported("np.squeeze of a partial expression")
+                if not node.keywords:
+                    return "NDArr.squeeze %s" % v, False
+                if len(node.keywords) == 1 and node.keywords[0].arg == "axis" \
+                        and isinstance(node.keywords[0].value, ast.Constant) \
+                        and type(node.keywords[0].value.value) is int and node.keywords[0].value.value >= 0:
+                    return "NDArr.squeezeAxis %s %d" % (v, node.keywords[0].value.value), True
+            if f == "transpose" and len(node.args) == 2 and not node.keywords:
+                v, mon = self.arr(node.args[0])
+                perm = node.args[1]
+                want = "np.roll(range(%s.ndim), 1)" % v
+                if not mon and ast.unparse(perm) == want:
+                    return "NDArr.timeFirst %s" % v, True
+        raise Unsupported("array expression %s" % ast.unparse(node)[:80])
+
+    def test(self, node):
+        if isinstance(node, ast.Name):
+            if node.id in self.bools:
+                return node.id
+            raise Unsupported("truth value of %s" % node.id)
+        if isinstance(node, ast.Call) and isinstance(node.func, ast.Attribute) \
+                and isinstance(node.func.value, ast.Name) and not node.args and not node.keywords \
+                and (node.func.value.id, node.func.attr) in self.attr_calls:
+            return self.attr_calls[(node.func.value.id, node.func.attr)]
+        if isinstance(node, ast.UnaryOp) and isinstance(node.op, ast.Not):
+            return "(!%s)" % self.test(node.operand)
+        if isinstance(node, ast.BoolOp):
+            op = " && " if isinstance(node.op, ast.And) else " || "
+            return "(" + op.join(self.test(v) for v in node.values) + ")"
+        if isinstance(node, ast.Compare) and len(node.ops) == 1:
+            op, lhs, rhs = node.ops[0], node.left, node.comparators[0]
+            if isinstance(op, (ast.Is, ast.IsNot)) and isinstance(lhs, ast.Name) and lhs.id in self.sq \
+                    and isinstance(rhs, ast.Constant) and (rhs.value is None or rhs.value is True or rhs.value is False):
+                c = "Sq.none" if rhs.value is None else ("Sq.true" if rhs.value is True else "Sq.false")
+                e = "decide (%s = %s)" % (lhs.id, c)
+                return e if isinstance(op, ast.Is) else "(!%s)" % e
+            if isinstance(rhs, ast.Constant) and type(rhs.value) is int and rhs.value >= 0:
+                sym = {ast.Eq: "==", ast.Lt: "<", ast.LtE: "≤", ast.Gt: ">", ast.GtE: "≥", ast.NotEq: "!="}.get(type(op))
+                if sym:
+                    return "decide (%s %s %d)" % (self.nat(lhs), sym.replace("==", "=").replace("!=", "≠"), rhs.value)
+        raise Unsupported("test %s" % ast.unparse(node)[:80])
+
+    def nat(self, node):
+        if isinstance(node, ast.Attribute) and node.attr == "ndim" and isinstance(node.value, ast.Name) \
+                and node.value.id in self.arrays:
+            return "NDArr.ndim %s" % node.value.id
+        key = ast.unparse(node)
+        if key in self.special:
+            return self.special[key]
+        raise Unsupported("number %s" % key[:80])
+
+    def cfg(self, node):
+        """config.defaults['key'] -> Lean name"""
+        if isinstance(node, ast.Subscript) and isinstance(node.value, ast.Attribute) \
+                and node.value.attr == "defaults" and isinstance(node.value.value, ast.Name) \
+                and node.value.value.id == "config" and isinstance(node.slice, ast.Constant) \
+                and node.slice.value in self.cfg_keys:
+            self.used_cfg.append(node.slice.value)
+            return self.cfg_keys[node.slice.value]
+        return None
+
+    # -- statements -------------------------------------------------------------------------
+    def block(self, stmts, indent):
+        pad = "  " * indent
+        out = []
+        for s in stmts:
+            if isinstance(s, ast.Expr) and isinstance(s.value, ast.Constant) and isinstance(s.value.value, str):
+                continue
+            if isinstance(s, ast.Pass):
+                out.append(pad + "pure ()")
+            elif isinstance(s, ast.Return):
+                if s.value is None:
+                    raise Unsupported("bare return")
+                v, mon = self.arr(s.value)
+                out.append(pad + ("return (← %s)" % v if mon else "return %s" % v))
+            elif isinstance(s, ast.Raise):
+                e = s.exc
+                if isinstance(e, ast.Call) and isinstance(e.func, ast.Name) and e.func.id == "ValueError":
+                    out.append(pad + "throw Err.badArg")
+                else:
+                    raise Unsupported("raise %s" % ast.unparse(s)[:60])
+            elif isinstance(s, ast.Assign) and len(s.targets) == 1 and isinstance(s.targets[0], ast.Name):
+                t = s.targets[0].id
+                if t in self.sq:
+                    c = self.cfg(s.value)
+                    if c is None:
+                        raise Unsupported("assignment to %s of %s" % (t, ast.unparse(s.value)[:60]))
+                    out.append(pad + "%s := %s" % (t, c))
+                elif t in self.arrays:
+                    v, mon = self.arr(s.value)
+                    out.append(pad + ("%s ← %s" % (t, v) if mon else "%s := %s" % (t, v)))
+                else:
+                    raise Unsupported("assignment to %s" % t)
+            elif isinstance(s, ast.If):
+                out.append(pad + "if %s then" % self.test(s.test))
+                out.append(self.block(s.body, indent + 1) or (pad + "  pure ()"))
+                if s.orelse:
+                    out.append(pad + "else")
+                    out.append(self.block(s.orelse, indent + 1) or (pad + "  pure ()"))
+            else:
+                raise Unsupported("statement %s" % ast.unparse(s)[:60])
+        return "\n".join(out)
+
+
+def _find_function(src_path, func):
+    src = open(src_path).read()
+    for node in ast.parse(src).body:
+        if isinstance(node, ast.FunctionDef) and node.name == func:
+            return src, node
+    raise Unsupported("function %s not found in %s" % (func, src_path))
+
+
+ARRAY_JOBS = [
+    # (file, function, lean name, lean binder list, python params in order, context)
+    ("control/timeresp.py", "_process_time_response", "processTimeResponse",
+     "{α : Type} (signal : NDArr α) (issiso : Bool) (transpose : Bool) (squeeze : Sq) (cfg : Sq)",
+     ["signal", "issiso", "transpose", "squeeze"],
+     dict(arrays=["signal"], bools=["issiso", "transpose"], sq=["squeeze"], nats=[],
+          cfg_keys={"control.squeeze_time_response": "cfg"}, attr_calls={}, special_exprs={})),
+    ("control/lti.py", "_process_frequency_response", "processFrequencyResponse",
+     "{α : Type} (issiso : Bool) (omegaNdim : Nat) (out : NDArr α) (squeeze : Sq) (cfg : Sq)",
+     ["sys", "omega", "out", "squeeze"],
+     dict(arrays=["out"], bools=[], sq=["squeeze"], nats=[],
+          cfg_keys={"control.squeeze_frequency_response": "cfg"},
+          attr_calls={("sys", "issiso"): "issiso"},
+          special_exprs={"np.asarray(omega).ndim": "omegaNdim"})),
+]
+
+
+def translate_array_function(repo, job):
+    rel, func, lname, binders, params, ctxkw = job
+    src, fn = _find_function(os.path.join(repo, rel), func)
+    got = [x.arg for x in fn.args.args]
+    if got != params or fn.args.vararg or fn.args.kwarg or fn.args.kwonlyargs:
+        raise Unsupported("signature %s, expected %s" % (got, params))
+    ctx = _ArrayFn(**ctxkw)
+    body = ctx.block(fn.body, 1)
+    muts = "".join("  let mut %s := %s\n" % (v, v) for v in ctx.sq + ctx.arrays)
+    if not _terminates([s for s in fn.body if not isinstance(s, ast.Expr)]):
+        raise Unsupported("a path falls off the end of the function")
+    text = ast.get_source_segment(src, fn)
+    sha = hashlib.sha256(text.encode()).hexdigest()[:16]
+    lean = ("/-- `%s` (%s, sha256 %s) as the source text says it; configuration keys read: %s. -/\n"
+            "def %s %s : Except Err (NDArr α) := do\n%s%s\n") % (
+        func, rel, sha, ", ".join(sorted(set(ctx.used_cfg))) or "none", lname, binders, muts, body)
+    return lean, {"sha": sha, "lines": fn.end_lineno - fn.lineno + 1}
+
+
+def regenerate_arrays(repo, lean_dir):
+    """Rewrite Generated/ProcessResponse.lean; returns (problems, info)."""
+    problems, info, parts = [], {}, []
+    for job in ARRAY_JOBS:
+        rel, func, lname, binders = job[0], job[1], job[2], job[3]
+        try:
+            lean, inf = translate_array_function(repo, job)
+            info[func] = inf
+        except (Unsupported, SyntaxError, OSError) as e:
+            problems.append("py2lean: %s:%s cannot be translated: %s" % (rel, func, e))
+            lean = ("/-- translation FAILED: %s -/\ndef %s %s : Except Err (NDArr α) := .error .notImplemented\n"
+                    % (str(e).replace("\n", " ").replace("-/", "- /")[:200], lname, binders))
+        parts.append(lean)
+    text = ("-- GENERATED on every run by harness/core/py2lean.py from the source text in /repo.  Do not edit.\n"
+            "import CtrlVerif.Model.Shape\n\nnamespace CtrlVerif.Generated\n\nopen CtrlVerif\n\n"
+            + "\n".join(parts) + "\nend CtrlVerif.Generated\n")
+    path = os.path.join(lean_dir, "CtrlVerif", "Generated", "ProcessResponse.lean")
+    os.makedirs(os.path.dirname(path), exist_ok=True)
+    old = open(path).read() if os.path.exists(path) else None
+    if old != text:
+        with open(path, "w") as f:
+            f.write(text)
+    return problems, info
